@@ -5,6 +5,7 @@
 //	                         -> GaIfNoScopeRetNil "AuthScopeX";  `if !util.ConstantTimeEqString(util.GetAuthKey(T, TS), K)
 //	                         { return <error> }` -> GaIfKeyMismatchRetErr T TS K (THAT argument order);  `return nil` -> GaRetNil
 //	pkg/util/util/util.go    ConstantTimeEqString: `return subtle.ConstantTimeCompare([]byte(a), []byte(b)) == 1` -> GaCtFull "a" "b"
+//	pkg/ssh/gateway.go, server.go   see sshGateway below
 //	server/service.go        RegisterControl: which condition selects auth.AlwaysPassVerifier, into what (local variable or
 //	                         field), whose VerifyLogin is called and returned on error, what is handed to NewControl, the
 //	                         order verify < NewControl < ctlManager.Add < Start, and how many assignments to a field named
@@ -408,6 +409,169 @@ func regControl(fset *token.FileSet, f *ast.File) (string, error) {
 		coqList(bypass), mentions, tx.CoqString(verifyRecv), verifyReturns, tx.CoqString(ncArg), tx.CoqString(rootInit), coqList(os), fieldAssigns), nil
 }
 
+// sshGateway translates the three facts of pkg/ssh that decide who gets a virtual-client session without a token:
+// gateway.go NewGateway `sshConfig.NoClientAuth = <expr>`, the top-level statements of the PublicKeyCallback literal
+// (classified: definitions verbatim, `if C fail` / `if C SUCCESS` by what the returns inside do, `return success|fail`),
+// and server.go TunnelServer.Run `AlwaysAuthPass: <expr>`.
+func sshGateway(fset *token.FileSet, gf, sf *ast.File) (string, error) {
+	ng := findFunc(gf, "", "NewGateway")
+	if ng == nil {
+		return "", fmt.Errorf("NewGateway not found")
+	}
+	e := &env{fset: fset, subst: map[string]string{}}
+	var nca []string
+	var cb *ast.FuncLit
+	cbCount := 0
+	ast.Inspect(ng.Body, func(n ast.Node) bool {
+		a, ok := n.(*ast.AssignStmt)
+		if !ok || len(a.Lhs) != 1 || len(a.Rhs) != 1 {
+			return true
+		}
+		if sel, ok := a.Lhs[0].(*ast.SelectorExpr); ok {
+			switch sel.Sel.Name {
+			case "NoClientAuth":
+				nca = append(nca, tx.CoqString(e.raw(a.Rhs[0])))
+			case "PublicKeyCallback":
+				cbCount++
+				if fl, ok := a.Rhs[0].(*ast.FuncLit); ok {
+					cb = fl
+				}
+			}
+		}
+		return true
+	})
+	// other callbacks that could authenticate a peer (password, keyboard-interactive, NoClientAuthCallback ...)
+	var otherCbs []string
+	ast.Inspect(gf, func(n ast.Node) bool {
+		if a, ok := n.(*ast.AssignStmt); ok {
+			for _, l := range a.Lhs {
+				if sel, ok := l.(*ast.SelectorExpr); ok && strings.HasSuffix(sel.Sel.Name, "Callback") &&
+					sel.Sel.Name != "PublicKeyCallback" && sel.Sel.Name != "AuthLogCallback" && sel.Sel.Name != "BannerCallback" {
+					otherCbs = append(otherCbs, tx.CoqString(sel.Sel.Name))
+				}
+			}
+		}
+		return true
+	})
+	success := func(r *ast.ReturnStmt) bool {
+		if len(r.Results) != 2 {
+			return false
+		}
+		id, ok := r.Results[1].(*ast.Ident)
+		return ok && id.Name == "nil"
+	}
+	var stmts []string
+	nsuccess := 0
+	if cb == nil || cbCount != 1 {
+		stmts = append(stmts, tx.CoqString(fmt.Sprintf("?PublicKeyCallback assigned %d times / not a function literal", cbCount)))
+	} else {
+		ast.Inspect(cb.Body, func(n ast.Node) bool {
+			if r, ok := n.(*ast.ReturnStmt); ok && success(r) {
+				nsuccess++
+			}
+			return true
+		})
+		for _, st := range cb.Body.List {
+			switch v := st.(type) {
+			case *ast.AssignStmt:
+				stmts = append(stmts, tx.CoqString(e.raw(v)))
+			case *ast.IfStmt:
+				ok := false
+				ast.Inspect(v, func(n ast.Node) bool {
+					if r, isr := n.(*ast.ReturnStmt); isr && success(r) {
+						ok = true
+					}
+					return true
+				})
+				kind := "fail"
+				if ok {
+					kind = "SUCCESS"
+				}
+				init := ""
+				if v.Init != nil {
+					init = e.raw(v.Init) + "; "
+				}
+				stmts = append(stmts, tx.CoqString("if "+init+e.raw(v.Cond)+" "+kind))
+			case *ast.ReturnStmt:
+				if success(v) {
+					stmts = append(stmts, tx.CoqString("return success"))
+				} else {
+					stmts = append(stmts, tx.CoqString("return fail"))
+				}
+			default:
+				stmts = append(stmts, tx.CoqString("?"+e.raw(st)))
+			}
+		}
+	}
+	run := findFunc(sf, "TunnelServer", "Run")
+	if run == nil {
+		return "", fmt.Errorf("TunnelServer.Run not found")
+	}
+	e2 := &env{fset: fset, subst: map[string]string{}}
+	if len(run.Recv.List[0].Names) == 1 {
+		e2.subst[run.Recv.List[0].Names[0].Name] = "s"
+	}
+	var aap []string
+	ast.Inspect(sf, func(n ast.Node) bool {
+		switch v := n.(type) {
+		case *ast.KeyValueExpr:
+			if id, ok := v.Key.(*ast.Ident); ok && id.Name == "AlwaysAuthPass" {
+				aap = append(aap, tx.CoqString(e2.render(v.Value)))
+			}
+		case *ast.AssignStmt:
+			for i, l := range v.Lhs {
+				if sel, ok := l.(*ast.SelectorExpr); ok && sel.Sel.Name == "AlwaysAuthPass" && i < len(v.Rhs) {
+					aap = append(aap, tx.CoqString("assigned: "+e2.render(v.Rhs[i])))
+				}
+			}
+		}
+		return true
+	})
+	return fmt.Sprintf("{| sgw_no_client_auth := %s;\n     sgw_callback := %s;\n     sgw_callback_success_returns := %d;\n     sgw_other_callbacks := %s;\n     sgw_always_auth_pass := %s |}",
+		coqList(nca), coqList(stmts), nsuccess, coqList(otherCbs), coqList(aap)), nil
+}
+
+// newAuthVerifier: pkg/auth/auth.go NewAuthVerifier as (case label, statements) pairs, and how often the file mentions
+// AlwaysPassVerifier (the configured verifier must never be the always-pass one).
+func newAuthVerifier(fset *token.FileSet, f *ast.File) (string, error) {
+	fd := findFunc(f, "", "NewAuthVerifier")
+	if fd == nil {
+		return "", fmt.Errorf("NewAuthVerifier not found")
+	}
+	e := &env{fset: fset, subst: map[string]string{}}
+	var cases []string
+	other := 0
+	for _, st := range fd.Body.List {
+		sw, ok := st.(*ast.SwitchStmt)
+		if !ok {
+			if r, isr := st.(*ast.ReturnStmt); isr && len(r.Results) == 1 && e.raw(r.Results[0]) == "authVerifier" {
+				continue
+			}
+			other++
+			continue
+		}
+		for _, cc := range sw.Body.List {
+			cl := cc.(*ast.CaseClause)
+			var labels, body []string
+			for _, l := range cl.List {
+				labels = append(labels, e.raw(l))
+			}
+			for _, b := range cl.Body {
+				body = append(body, tx.CoqString(e.raw(b)))
+			}
+			cases = append(cases, fmt.Sprintf("(%s, %s)", tx.CoqString(e.raw(sw.Tag)+": "+strings.Join(labels, ",")), coqList(body)))
+		}
+	}
+	mentions := 0
+	ast.Inspect(f, func(n ast.Node) bool {
+		if id, ok := n.(*ast.Ident); ok && id.Name == "AlwaysPassVerifier" {
+			mentions++
+		}
+		return true
+	})
+	return fmt.Sprintf("{| nav_cases := %s; nav_other_statements := %d; nav_always_pass_mentions := %d |}", coqList(cases), other, mentions), nil
+}
+
 func gen() ([]byte, error) {
 	fset := token.NewFileSet()
 	tf, err := parser.ParseFile(fset, filepath.Join(tx.Repo, "pkg/auth/token.go"), nil, 0)
@@ -442,6 +606,28 @@ func gen() ([]byte, error) {
 	if err != nil {
 		return nil, err
 	}
-	fmt.Fprintf(&b, "Definition gen_register_control : ga_regctl :=\n  %s.\n", rc)
+	fmt.Fprintf(&b, "Definition gen_register_control : ga_regctl :=\n  %s.\n\n", rc)
+	gwf, err := parser.ParseFile(fset, filepath.Join(tx.Repo, "pkg/ssh/gateway.go"), nil, 0)
+	if err != nil {
+		return nil, err
+	}
+	ssf, err := parser.ParseFile(fset, filepath.Join(tx.Repo, "pkg/ssh/server.go"), nil, 0)
+	if err != nil {
+		return nil, err
+	}
+	gw, err := sshGateway(fset, gwf, ssf)
+	if err != nil {
+		return nil, err
+	}
+	fmt.Fprintf(&b, "Definition gen_ssh_gateway : ga_sshgw :=\n  %s.\n\n", gw)
+	af, err := parser.ParseFile(fset, filepath.Join(tx.Repo, "pkg/auth/auth.go"), nil, 0)
+	if err != nil {
+		return nil, err
+	}
+	nav, err := newAuthVerifier(fset, af)
+	if err != nil {
+		return nil, err
+	}
+	fmt.Fprintf(&b, "Definition gen_new_auth_verifier : ga_newverifier :=\n  %s.\n", nav)
 	return b.Bytes(), nil
 }
